@@ -100,6 +100,16 @@ def run(ctx, rep, r1="R10.1", r2="R10.2", only_transform=False):
                 builds.append((node, lst.elts))
     if len(builds) != 2:
         raise AnalysisError(f"Problem.__init__: {len(builds)} constructions of the internal linear system found (expected reduced + scaled)")
+    # the reduced system is (re)built from the cleaned user system on every path: it is also
+    # what drops NaN rows / coefficients, with or without fixed variables
+    first = sorted(builds, key=lambda b: b[0].lineno)[0][0]
+    conds = [c for c in enclosing_context(first, f.node) if c[0] in ("if-true", "if-false")]
+    if conds:
+        rep.bad(r1, "reduced system built unconditionally")
+        rep.finding(r1, f, norm(first)[:100], first.lineno,
+                    f"the internal linear system is only rebuilt under `{norm(conds[0][1])[:60]}`: on the other paths the solver keeps the user's raw constraint objects (NaN limits / coefficients not neutralised, violation computed from them)")
+    else:
+        rep.ok(r1, f"{f.local}:{first.lineno} the reduced linear system is built on every path")
     builds.sort(key=lambda b: b[0].lineno)
     fixed_mask = "self._fixed_idx"
     stage_info = {}
